@@ -716,8 +716,10 @@ class MQTTProtocol(MQTTBaseProtocol):
        
         # Cancel Alarms first
         self._cancelAlarms()
-        # Then, invoke errbacks anyway if we do not persist state
-        if self._cleanStart:
+        # Then, invoke errbacks anyway if we do not persist state.
+        # A connection on which no CONNECT was ever sent had no session of its own:
+        # what a persistent session keeps for this address is left alone.
+        if self._connectSent and self._cleanStart:
             self._purgeSession(reason)
 
 __all__ = [ "MQTTProtocol" ]
